@@ -153,6 +153,7 @@ struct Env<'a> {
   orc: &'a mut Oracle,
   moc: PathBuf,
   dir: PathBuf,
+  last_stderr: String,
 }
 impl<'a> Env<'a> {
   fn p(&self, name: &str) -> PathBuf {
@@ -167,6 +168,7 @@ impl<'a> Env<'a> {
     let a: Vec<&str> = args.iter().map(|s| s.as_str()).collect();
     let r = run_cmd(&self.moc, &a, None);
     self.rep.evaluations += 1;
+    self.last_stderr = r.stderr.clone();
     if r.code.is_none() || r.code == Some(101) || r.stderr.contains("panicked") {
       let cls = crash_class(&r.stderr);
       self.rep.violation_c(&format!("the moc tool crashes (exit {:?})", r.code), case, &r.stderr.chars().take(300).collect::<String>(), "exit status + message", "C19 (never a crash)", &cls);
@@ -373,7 +375,12 @@ fn st_cases(e: &mut Env, rng: &mut Rng, n: u64) {
               e.rep.nontrivial(&case);
             }
           }
-          other => e.rep.violation("`moc op` on space-time MOCs fails or writes an unreadable file", &case, &format!("exit {} {:?}", code, other.map(|x| x.show())), "Ok", "C19"),
+          other => {
+            // D10e after the repair of the writers (5fabc29): the element whose time MOC declares the
+            // shallower depth makes the ASCII / JSON writer return an error instead of aborting
+            let cls = if d10e && code != 0 && e.last_stderr.contains("Cell of depth") && e.last_stderr.contains("in a MOC of maximum depth") { format!("st-union-elem-depth|error|{}", fmt) } else { String::new() };
+            e.rep.violation_c("`moc op` on space-time MOCs fails or writes an unreadable file", &case, &format!("exit {} {:?} {}", code, other.map(|x| x.show()), e.last_stderr.chars().take(200).collect::<String>()), "Ok", "C19", &cls)
+          }
         }
       }
       k @ 3..=4 => {
@@ -572,7 +579,19 @@ fn invalid_cases(e: &mut Env, rng: &mut Rng, n: u64) {
     let out = e.p("invalid_out");
     let _ = std::fs::remove_file(&out);
     let inp = e.p("broken_input.fits");
-    let (desc, bytes, args): (String, Vec<u8>, Vec<String>) = match rng.below(6) {
+    let (desc, bytes, args): (String, Vec<u8>, Vec<String>) = match rng.below(7) {
+      6 => {
+        // corrupt the range rows only (header intact): the rows may stop being a valid MOC
+        let mut b = good.clone();
+        let nrow_bytes = 16 * m.r.len();
+        if nrow_bytes > 0 {
+          for _ in 0..rng.range(1, 3) {
+            let i = 5760 + rng.below(nrow_bytes as u64) as usize;
+            b[i] = rng.next() as u8;
+          }
+        }
+        ("FITS with random bytes changed".into(), b, vec!["convert".into(), inp.to_str().unwrap().into(), (*rng.pick(&["json", "ascii"])).into(), out.to_str().unwrap().into()])
+      }
       0 => {
         let cut = rng.below(good.len() as u64) as usize;
         (format!("FITS truncated at {}", cut), good[..cut].to_vec(), vec!["op".into(), "complement".into(), inp.to_str().unwrap().into(), "ascii".into(), out.to_str().unwrap().into()])
@@ -603,7 +622,10 @@ fn invalid_cases(e: &mut Env, rng: &mut Rng, n: u64) {
       let fmt = args[args.len() - 2].as_str();
       if desc.starts_with("FITS") {
         if decode_out(q, fmt, &out).is_err() {
-          e.rep.violation("exit 0 on a corrupted input but the output does not decode", &case, "undecodable output", "", "C19 (no silent misrepresentation)");
+          // D35 (known finding): the rows of a FITS range MOC are not validated
+          let rows_only = bytes.len() == good.len() && bytes[..5760.min(bytes.len())] == good[..5760.min(good.len())];
+          let cls = if rows_only { "fits-rows-not-validated|undecodable-output" } else { "" };
+          e.rep.violation_c("exit 0 on a corrupted input but the output does not decode", &case, "undecodable output", "", "C19 (no silent misrepresentation)", cls);
         }
       } else {
         e.rep.violation("invalid input accepted with exit status 0", &case, "exit 0", "non-zero exit + message", "C19 (invalid input)");
@@ -623,7 +645,7 @@ pub fn run(ctx: &Ctx) -> Report {
   let dir = PathBuf::from(scratch).join("cli");
   let _ = std::fs::remove_dir_all(&dir);
   std::fs::create_dir_all(&dir).unwrap();
-  let mut e = Env { rep: &mut rep, orc: &mut orc, moc: bin("moc"), dir };
+  let mut e = Env { rep: &mut rep, orc: &mut orc, moc: bin("moc"), dir, last_stderr: String::new() };
   if !e.moc.exists() {
     e.rep.violation("moc binary not built", "CLI", "", "", "internal");
     return rep;
